@@ -191,18 +191,38 @@ def job_record_lengths_fp():
     return recs
 
 
-def job_record_run(nant, nblocks, nsb):
-    """real record(): attributes, header SCANLEN / PKTSTART / PKTSTOP, samples drawn, antenna clock"""
+class SourceFailure(Exception):
+    pass
+
+
+def job_record_run(nant, nblocks, nsb, prior=None):
+    """real record(): attributes, header SCANLEN / PKTSTART / PKTSTOP, samples drawn, antenna clock.
+    prior: None | 'completed' | 'aborted' -- an earlier recording on the same backend (the aborted one is cut short by
+    the source raising on its 3rd request); the accounting of the recording that follows must not depend on it"""
     recs = []
-    tag = f"C20:record-run:{(nant, nblocks, nsb)}"
+    tag = f"C20:record-run:{(nant, nblocks, nsb)}" + (f":after-{prior}" if prior else '')
     fs = MemFS()
     P, taps, Wb, npol = 4, 2, 3, 2
     with volt_patches(opener=fs.open):
         be, ant, ws = C02.build(P, taps, Wb, nsb, npol, nant, 8, 0, 2, 2)
+        if prior:
+            orig_get = ant.get_samples
+            if prior == 'aborted':
+                def failing(n, orig_get=orig_get):
+                    if len(ant.reqs) == 2:
+                        raise SourceFailure('source failed')
+                    return orig_get(n)
+                ant.get_samples = failing
+            try:
+                be.record('/mem/prior', num_blocks=3, length_mode='num_blocks', header_dict={}, digitize=True, verbose=False, load_template=False)
+            except SourceFailure:
+                pass
+            ant.get_samples = orig_get
+            ant.reqs = []
         t_before = ant.t_start
         be.record('/mem/o', num_blocks=nblocks, length_mode='num_blocks', header_dict={'PKTIDX': 40}, digitize=True, verbose=False, load_template=False)
         hdrs = []
-        for nm in fs.names():
+        for nm in [n_ for n_ in fs.names() if n_.startswith('/mem/o.')]:
             blocks, err = C04.parse_file(MemFile(fs.files, nm, 'rb')._flat())
             hdrs += blocks or []
     spb = be.samples_per_block
@@ -212,6 +232,8 @@ def job_record_run(nant, nblocks, nsb):
         problems.append('samples_per_block')
     if drawn != nblocks * spb * P + taps * P:
         problems.append(f'drew {drawn} samples, expected n*spb*P + taps*P = {nblocks * spb * P + taps * P}')
+    if not ant.reqs or not ant.reqs[0][1] or any(f for _, f in ant.reqs[1:]):
+        problems.append(f'start-of-observation flag on the requests: {[f for _, f in ant.reqs][:6]} (expected only the first)')
     if nant == 1 and abs((ant.t_start - t_before) - drawn / ant.sample_rate) > 1e-12:
         problems.append('antenna clock')
     if be.obs_length != nblocks * be.time_per_block or be.total_obs_num_samples != nblocks * spb * P:
@@ -225,7 +247,7 @@ def job_record_run(nant, nblocks, nsb):
     r, _ = core.check([RV(int(not problems)) != 1])
     recs.append(q(tag, r, detail='; '.join(problems)))
     if problems:
-        recs.append(cex('C20:record-run', '; '.join(problems[:3]), dict(fn='record', n_req=nblocks, n_in=None, L=0.0, length_mode='num_blocks'), name=tag))
+        recs.append(cex('C20:record-run' + (f':after-{prior}' if prior else ''), '; '.join(problems[:3]), dict(fn='record', n_req=nblocks, n_in=None, L=0.0, length_mode='num_blocks', prior=prior), name=tag))
     return recs
 
 
@@ -351,6 +373,20 @@ def replay_record(p):
             for nsb in (1, 2, 3):
                 be, src = _real_backend()
                 be.num_subblocks = nsb
+                if p.get('prior'):
+                    state = {'fail': p['prior'] == 'aborted', 'calls': 0}
+
+                    def flaky(ts, state=state):
+                        state['calls'] += 1
+                        if state['fail'] and state['calls'] == 5:
+                            raise RuntimeError('source failed')
+                        return np.zeros(len(ts))
+                    src.x.add_signal(flaky)
+                    try:
+                        be.record(os.path.join(d, f'prior{nsb}'), num_blocks=3, length_mode='num_blocks', header_dict={}, verbose=False, load_template=False)
+                    except RuntimeError:
+                        pass
+                    state['fail'] = False
                 drawn = [0]
                 orig = src.get_samples
 
@@ -362,7 +398,7 @@ def replay_record(p):
                 be.record(os.path.join(d, f'a{nsb}'), num_blocks=n, length_mode='num_blocks', header_dict={}, verbose=False, load_template=False)
                 want = n * be.samples_per_block * be.num_branches + be.num_taps * be.num_branches
                 if drawn[0] != want:
-                    msgs.append(f"num_subblocks={nsb}: {drawn[0]} samples drawn from the antenna for {n} blocks, expected n*spb*P + taps*P = {want}")
+                    msgs.append(f"num_subblocks={nsb}{' (after an ' + p['prior'] + ' recording)' if p.get('prior') else ''}: {drawn[0]} samples drawn from the antenna for {n} blocks, expected n*spb*P + taps*P = {want}")
                 if abs((src.t_start - t_before) - want / src.sample_rate) > 1e-9:
                     msgs.append(f"num_subblocks={nsb}: antenna clock advanced by {src.t_start - t_before}, expected {want / src.sample_rate}")
             be, src = _real_backend()
@@ -484,6 +520,9 @@ def main():
         for nblocks in (1, 2, 3):
             for nsb in (1, 2):
                 jobs.append(('job_record_run', (nant, nblocks, nsb)))
+                if nblocks == 2:
+                    for prior in ('completed', 'aborted'):
+                        jobs.append(('job_record_run', (nant, nblocks, nsb, prior)))
     jobs.append(('job_helpers', ()))
     jobs.append(('job_record_lengths_fp', ()))
     ck.bounds = dict(configs=space, windows_per_block='symbolic integer >= 1', requested_blocks='symbolic integer <= 10^6; input blocks symbolic <= 10^6', durations='symbolic real <= 10^6 s', executed_recordings='1..3 blocks')
